@@ -9,6 +9,7 @@ DEFAULT = {
 }
 
 OVERRIDE = {
+    "C09": {"quick": dict(types="d", shards=6, configs=["tsan", "asan"], cases=1500, budget=45), "thorough": dict(types="d", shards=8, configs=["tsan", "asan"], cases=20000, budget=600)},
     "C08": {"quick": dict(cases=1500, budget=50), "thorough": dict(cases=20000, budget=600, configs=["asan", "asan-i64"])},
     "C10": {"quick": dict(types="d", shards=16), "thorough": dict(types="d", shards=8, configs=["asan", "asan-i64"])},
 }
@@ -21,6 +22,9 @@ COMMON_NOTE = ("Trusted: the harness's dense long-double reference, the choice-s
                "Exploration only: the property is shown to hold on the generated cases (counts in the evidence file), nothing is proved.")
 
 INFO = {
+    "C09": dict(level="exploration", assumptions=["schedules are sampled, not owned: the claim is 'no data race reported by ThreadSanitizer and bit-identical results over the sampled thread counts and start skews', not absence of races under all interleavings", "bundled (plain C) BLAS so that rounding does not depend on alignment or thread count"], note=COMMON_NOTE,
+                technique="property-based testing (rapidcheck) of concurrent independent calls: differential digests (alone vs concurrent vs repeated after unrelated calls) in an ASan build and a ThreadSanitizer build whose race reports are violations",
+                text="Generated mixes of drivers, factor/solve, ordering, ILU and MC64 calls run on 2..8 threads; outputs must be bit-identical to the same calls run alone and repeated, and ThreadSanitizer must stay silent."),
     "C15": dict(level="exploration", assumptions=COMMON_ASSUME, note=COMMON_NOTE,
                 technique="property-based testing (rapidcheck): validity predicates on the returned ILU factors, the preconditioner-solve identity against the decoded factors, and the complete-LU oracles when dropping is disabled",
                 text="Generated structurally nonsingular matrices (with zero diagonals and singular leading blocks) go through ?gsisx under every drop rule / MILU / row-permutation combination; the result is judged by predicates that any correct ILU must satisfy."),
@@ -82,7 +86,7 @@ INFO = {
 
 NOT_APPLICABLE = {}
 
-PROPS = ["C01", "C02", "C03", "C04", "C05", "C06", "C07", "C08", "C10", "C11", "C12", "C13", "C14", "C15", "C16", "C17", "C18", "C19", "C20"]
+PROPS = ["C01", "C02", "C03", "C04", "C05", "C06", "C07", "C08", "C09", "C10", "C11", "C12", "C13", "C14", "C15", "C16", "C17", "C18", "C19", "C20"]
 
 
 def all_props():
@@ -90,7 +94,7 @@ def all_props():
 
 
 def setup_configs():
-    return ["asan"]
+    return ["asan", "tsan"]
 
 
 def plan_for(prop, tier):
